@@ -162,3 +162,6 @@ CHECKS = {
 CHECKS["C09"]["quick"] = CHECKS["C09"]["quick"] + [{"test": "TestC09Big", "checks": 2, "shards": 2}]
 CHECKS["C09"]["thorough"] = CHECKS["C09"]["thorough"] + [{"test": "TestC09Big", "checks": 12, "shards": 4}]
 CHECKS["C09"]["rule"] += " | TestC09Big: 11 500-14 000 keys, every key rewritten in each of 3-4 further versions, then ONE rollback to version 1 (LoadVersionForOverwriting / DeleteVersionsFrom + load on the same or a new handle) or ONE DeleteVersionsTo(latest-1): 70 000-110 000 node entries erased or orphaned in a single call; a fresh handle must list exactly the surviving version with the reference hash and contents, the raw store must hold no node entry of an erased / deleted version, the persisted index exactly the surviving pairs, and the next commit must return the reference hash"
+
+# C05 enumerates every cut of every history three times: about 4 minutes on an idle 16-core machine, up to 15 on a busy one
+CHECKS["C05"]["quick_timeout"] = 2400
